@@ -67,6 +67,8 @@ static inline int64_t vf_divc(int64_t x, int64_t K)
   return res;
 }
 #define DIV_GHOST g_divlog, g_divn
+/* x / 2 (truncating toward zero) without a divider circuit: shifts of the magnitude (exact for every x > INT64_MIN) */
+static inline int64_t vf_half(int64_t x) { return x >= 0 ? (x >> 1) : -((-x) >> 1); }
 #define NS_TO_US(e) vf_divc((int64_t)(e), 1000)
 #define NS_TO_MS(e) vf_divc((int64_t)(e), 1000000)
 #define NS_TO_S(e)  vf_divc((int64_t)(e), 1000000000)
@@ -127,6 +129,10 @@ extern int g_bound_ec; extern size_t g_bound_n;
 static inline fn_t bind_owned_tok(fn_t tok, int ec, size_t n) { g_bound_ec = ec; g_bound_n = n; return tok; }
 static inline void post_tok(fn_t tok) { post_closure(tok, g_bound_ec, g_bound_n, tok >= 0x7000 ? CK_raw_self : CK_owned); }
 
+/* dispatch(ctx, closure): asio runs the closure INSIDE the call when the caller is already running inside the context
+ * (any completion handler is): counted as an inline invocation */
+static inline void dispatch_tok(fn_t tok);
+
 /* std::bind(std::ref(slot), ec[, n]): the closure holds a REFERENCE to the handler slot (kind CK_ref_member); it is only
  * safe while the slot still holds the handler when the closure runs */
 extern size_t g_ref_posts;
@@ -137,6 +143,8 @@ static inline fn_t bind_ref_tok(fn_t *slot, int ec, size_t n) { g_bound_ec = ec;
 static inline fn_t fn_move(fn_t *slot) { fn_t t = *slot; *slot = 0; return t; }
 static inline void fn_clear(fn_t *slot) { if (*slot != 0) g_destroyed++; *slot = 0; }
 static inline void fn_assign(fn_t *slot, fn_t v) { if (*slot != 0) g_destroyed++; *slot = v; }
+static inline void fn_invoke(fn_t tok, int ec, size_t n);
+static inline void dispatch_tok(fn_t tok) { fn_invoke(tok, g_bound_ec, g_bound_n); }
 static inline void fn_invoke(fn_t tok, int ec, size_t n)
 {
   struct closure c; c.tok = tok; c.ec = ec; c.n = n; c.kind = CK_owned;
